@@ -56,13 +56,14 @@ theorem allWrapped_iter (cfg : Cfg) (tgt : Option Int) :
     · simp only [viaCatch] at hφ
       cases via <;> simp_all [childWrapped]
   cancel := by
-    intro x s id _ ⟨hx, h⟩
+    intro x s id ⟨hx, h⟩
     refine ⟨hx, ?_⟩
     intro e he
     simp only [St.cancel, List.mem_map] at he
     obtain ⟨e0, he0, rfl⟩ := he
     simp only [cancelEntry]
     split <;> simp [h e0 he0]
+  link := by intro x s l h; exact h
   stop := by intro x s _ h; exact h
   sleep := by intro x s t _ _ h; exact h
   handled := by intro x s e _ _ h; exact h
@@ -85,6 +86,7 @@ def trivInv (cfg : Cfg) (tgt : Option Int) (φ : Step → Prop) : IterInv cfg tg
   begin := by intros; trivial
   enq := by intros; trivial
   cancel := by intros; trivial
+  link := by intro x s l h; exact h
   stop := by intros; trivial
   sleep := by intros; trivial
   handled := by intros; trivial
@@ -126,7 +128,7 @@ def unwrapOp : Op → Op
 
 theorem advanceTo_erase (cfg : Cfg) (T : Int) (s s' : St) (hq : QAll noRaise s) (h : eraseW s = eraseW s') :
     eraseW (advanceTo cfg T s).1 = eraseW (advanceTo cfg T s').1 ∧ (advanceTo cfg T s).2 = (advanceTo cfg T s').2 := by
-  obtain ⟨h1, h3, h4, h5, h6, h7, h8, h2⟩ := erase_fields h
+  obtain ⟨h1, h3, h4, h5, h6, h7, h8, h2, hm⟩ := erase_fields h
   by_cases hgt : s.clock > T
   · have hgt' : s'.clock > T := h1 ▸ hgt
     simp only [advanceTo, if_pos hgt, if_pos hgt']; exact ⟨h, trivial⟩
@@ -137,45 +139,45 @@ theorem advanceTo_erase (cfg : Cfg) (T : Int) (s s' : St) (hq : QAll noRaise s) 
     · have hc' : ¬ (s'.clock = T ∨ s'.enabled = true) := by rw [← h1, ← h3]; exact hc
       simp only [advanceTo, if_neg hgt, if_neg hgt', if_neg hc, if_neg hc']
       have hl := loop_erase cfg (some T) { s with enabled := true } { s' with enabled := true } hq
-        (erase_mk h1 rfl h4 h5 h6 h7 h8 h2)
+        (erase_mk h1 rfl h4 h5 h6 h7 h8 h2 hm)
       rcases e1 : loop cfg (some T) { s with enabled := true } with ⟨a, o⟩
       rcases e2 : loop cfg (some T) { s' with enabled := true } with ⟨a', o'⟩
       rw [e1, e2] at hl
       obtain ⟨hl1, hl2⟩ := hl
       simp only at hl1 hl2
       subst hl2
-      obtain ⟨k1, k3, k4, k5, k6, k7, k8, k2⟩ := erase_fields hl1
+      obtain ⟨k1, k3, k4, k5, k6, k7, k8, k2, km⟩ := erase_fields hl1
       cases o with
-      | ok => exact ⟨erase_mk rfl rfl k4 k5 k6 k7 k8 k2, rfl⟩
+      | ok => exact ⟨erase_mk rfl rfl k4 k5 k6 k7 k8 k2 km, rfl⟩
       | raised e => exact ⟨hl1, rfl⟩
       | stuck => exact ⟨hl1, rfl⟩
 
 theorem start_erase (cfg : Cfg) (s s' : St) (hq : QAll noRaise s) (h : eraseW s = eraseW s') :
     eraseW (start cfg s).1 = eraseW (start cfg s').1 ∧ (start cfg s).2 = (start cfg s').2 := by
-  obtain ⟨h1, h3, h4, h5, h6, h7, h8, h2⟩ := erase_fields h
+  obtain ⟨h1, h3, h4, h5, h6, h7, h8, h2, hm⟩ := erase_fields h
   by_cases hen : s.enabled = true
   · have hen' : s'.enabled = true := h3 ▸ hen
     simp only [start, if_pos hen, if_pos hen']; exact ⟨h, trivial⟩
   · have hen' : ¬ s'.enabled = true := h3 ▸ hen
     simp only [start, if_neg hen, if_neg hen']
     have hl := loop_erase cfg none { s with enabled := true, spin := 0 } { s' with enabled := true, spin := 0 } hq
-      (erase_mk h1 rfl rfl h5 h6 h7 h8 h2)
+      (erase_mk h1 rfl rfl h5 h6 h7 h8 h2 hm)
     rcases e1 : loop cfg none { s with enabled := true, spin := 0 } with ⟨a, o⟩
     rcases e2 : loop cfg none { s' with enabled := true, spin := 0 } with ⟨a', o'⟩
     rw [e1, e2] at hl
     obtain ⟨hl1, hl2⟩ := hl
     simp only at hl1 hl2
     subst hl2
-    obtain ⟨k1, k3, k4, k5, k6, k7, k8, k2⟩ := erase_fields hl1
+    obtain ⟨k1, k3, k4, k5, k6, k7, k8, k2, km⟩ := erase_fields hl1
     cases o with
-    | ok => exact ⟨erase_mk k1 rfl k4 k5 k6 k7 k8 k2, rfl⟩
+    | ok => exact ⟨erase_mk k1 rfl k4 k5 k6 k7 k8 k2 km, rfl⟩
     | raised e => exact ⟨hl1, rfl⟩
     | stuck => exact ⟨hl1, rfl⟩
 
 theorem doOp_erase (cfg : Cfg) (s s' : St) (op : Op) (hq : QAll noRaise s) (hop : op.All noRaise)
     (h : eraseW s = eraseW s') :
     eraseW (doOp cfg s op).1 = eraseW (doOp cfg s' (unwrapOp op)).1 ∧ (doOp cfg s op).2 = (doOp cfg s' (unwrapOp op)).2 := by
-  obtain ⟨h1, h3, h4, h5, h6, h7, h8, h2⟩ := erase_fields h
+  obtain ⟨h1, h3, h4, h5, h6, h7, h8, h2, hm⟩ := erase_fields h
   cases op with
   | sched w m t id body =>
     refine ⟨?_, rfl⟩
@@ -183,18 +185,18 @@ theorem doOp_erase (cfg : Cfg) (s s' : St) (op : Op) (hq : QAll noRaise s) (hop 
     rw [erase_enqueue, erase_enqueue, h, h1]
   | cancel id =>
     refine ⟨?_, rfl⟩
-    show eraseW (s.cancel id) = eraseW (s'.cancel id)
-    rw [erase_cancel, erase_cancel, h]
+    show eraseW (s.dispose id) = eraseW (s'.dispose id)
+    rw [erase_dispose, erase_dispose, h]
   | stop =>
     refine ⟨?_, rfl⟩
     show eraseW { s with enabled := false } = eraseW { s' with enabled := false }
-    exact erase_mk h1 rfl h4 h5 h6 h7 h8 h2
+    exact erase_mk h1 rfl h4 h5 h6 h7 h8 h2 hm
   | sleep t =>
     show eraseW (sleep t s).1 = eraseW (sleep t s').1 ∧ (sleep t s).2 = (sleep t s').2
     simp only [sleep]
     split
     · exact ⟨h, rfl⟩
-    · exact ⟨erase_mk (by simp only [h1]) h3 h4 h5 h6 h7 h8 h2, rfl⟩
+    · exact ⟨erase_mk (by simp only [h1]) h3 h4 h5 h6 h7 h8 h2 hm, rfl⟩
   | start => exact start_erase cfg s s' hq h
   | advanceTo T => exact advanceTo_erase cfg T s s' hq h
   | advanceBy t =>
